@@ -12,12 +12,19 @@ oracle's conditional state.
                       bin -> other modes in refsim's conditional state; post-selected value likewise (cross-backend with gaussian)
   bosonic_rejection   bosonic homodyne/heterodyne on multi-peak states: proposal (choice p, normal mean/cov) and the acceptance
                       threshold of the rejection sampler are exactly those of the Born density (threshold probed from both sides)
-  bosonic_conditional bosonic MeasureThreshold (forced click / no click), post-selected homodyne / heterodyne on mixtures of Gaussians
-                      (cat, Fock, Gaussian modes): P(no click) handed to the sampler and the whole post-measurement mixture (moments,
-                      Wigner function at generated points) == the POVM element applied term by term by the oracle
-  gaussian_pnr_args   gaussian MeasureFock / MeasureThreshold: reduced mean/cov handed to thewalrus == refsim; sample layout
-  layout              several measurements in one program, unsorted measured modes: Result.samples columns in ascending mode
-                      order, samples_dict[mode], RegRef.val all carry the (forced, tagged) outcome of that mode
+  bosonic_conditional bosonic MeasureThreshold (forced click / no click), post-selected (also on exactly 0) and sampled (first proposal forced and
+                      accepted) homodyne / heterodyne on mixtures of Gaussians (cat, Fock, Gaussian modes; 1..3 modes, up to every mode measured):
+                      P(no click) handed to the sampler, the returned value, and the whole post-measurement mixture (moments, Wigner function at
+                      generated points) == the POVM element of the reported outcome applied term by term by the oracle
+  gaussian_pnr_args   gaussian MeasureFock / MeasureThreshold: reduced mean/cov handed to thewalrus == refsim; sample layout (one row per shot, shots
+                      from the run keyword, Program.run_options or compile(shots=..)); registers with unused modes and indices >= 10;
+                      MeasureFock(select=..) must be refused, not answered with another outcome
+  layout              several measurements in one program, unsorted measured modes, registers of 11..13 modes with measured indices >= 10,
+                      modes measured twice, shared MeasureX / MeasureHD instances, bosonic shots > 1: Result.samples has one row per shot and
+                      columns in ascending mode order holding the last outcome of each mode, samples_dict[mode] lists all outcomes of the
+                      mode in program order, RegRef.val carries the last one (forced, tagged outcomes; heterodyne: real and imaginary part)
+  fock_pnr / fock_homodyne also run with an extra, unentangled mode that is deleted before the measurement (backend position != register index)
+                      and, for homodyne, on the mixed-state representation
 """
 from __future__ import annotations
 
@@ -30,8 +37,10 @@ from vf.props.c05 import entangling_prior, ket_from_terms, ket_terms
 from vf.rngspy import RngSpy
 
 RULE = ("a correlated prior (entangling Gaussian circuit; Fock: bounded-photon ket/mixture or low-energy Gaussian circuit; bosonic: "
-        "cat/Fock/Gaussian modes) followed by one or more measurements of generated type, mode subset/order, angle, select value and "
-        "forced outcome; non-trivial = the measured mode is correlated with an unmeasured one and the outcome is not 0")
+        "cat/Fock/Gaussian modes) followed by one or more measurements of generated type, mode subset/order, angle, select value (incl. exactly 0) and "
+        "forced outcome; registers with unused or deleted modes (measured indices >= 10 next to one-digit ones, positions shifted by a Del), "
+        "re-measured modes, shots > 1 given by keyword / run options / compile, single-mode registers and every mode measured; "
+        "non-trivial = the measured mode is correlated with an unmeasured one and the outcome is not 0")
 ASSUMPTIONS = [
     "TensorFlow backend not exercised (not installed)",
     "gaussian/bosonic homodyne uses a finite-squeezing POVM (eps = 2e-4, documented): the oracle adds eps^2 to the sampler variance and "
@@ -40,11 +49,15 @@ ASSUMPTIONS = [
     "states vs refsim at 5e-3 (truncation + grid); prior energies bounded so that the tail weight is < 1e-6",
     "internal randomness of thewalrus' hafnian/torontonian samplers is not examined: only the arguments handed to them",
     "bosonic rejection sampler: verified per proposal (distribution parameters and acceptance threshold), not by statistics",
+    "bosonic sampled homodyne/heterodyne: the oracle conditions on the general-dyne POVM element centred at the drawn phase-space point (x, p) "
+    "(for homodyne p enters with variance 1/eps^2, i.e. not at all within the tolerance)",
     "bosonic conditional states (hbar = 2): oracle = weights/means/covs of the pre-measurement state (read from a run without the measurement; "
     "that state is C01's business) with the Gaussian POVM element applied to every term; 1e-7 (2e-5 for the eps-POVM of homodyne), scaled by sum|w|",
 ]
 REQUIRED_LABELS = {"all": ["type:homodyne", "type:heterodyne", "type:fock", "backend:gaussian", "backend:fock", "backend:bosonic",
-                           "angle_nonzero", "unsorted_measured_modes", "select", "multi_peak", "threshold_click", "threshold_no_click", "type:threshold"]}
+                           "angle_nonzero", "unsorted_measured_modes", "select", "multi_peak", "threshold_click", "threshold_no_click", "type:threshold",
+                           "two_digit_mode_index", "register_with_unused_modes", "measured_after_del", "del_shifts_measured_mode", "remeasured_mode",
+                           "layout_multi_shot", "multi_shot", "shots_from_run_options", "select_zero"]}
 
 EPS2 = (2e-4) ** 2
 
@@ -70,7 +83,10 @@ def gd_case(draw):
     m = draw(st.integers(0, n - 1))
     phi = draw(gen.angle()) if kind == "homodyne" else 0.0
     delta = [draw(gen.fl(-1.5, 1.5)), draw(gen.fl(-1.5, 1.5))]
-    return {"n": n, "hbar": hbar, "prior": prior, "kind": kind, "mode": m, "phi": phi, "delta": delta, "select": draw(st.integers(0, 2)) == 0}
+    case = {"n": n, "hbar": hbar, "prior": prior, "kind": kind, "mode": m, "phi": phi, "delta": delta, "select": draw(st.integers(0, 2)) == 0}
+    if case["select"] and draw(st.integers(0, 3)) == 0:
+        case["select_zero"] = True  # post-selection on exactly 0 / 0j (a falsy value)
+    return case
 
 
 def check_gd_select(ctx, case):
@@ -79,15 +95,16 @@ def check_gd_select(ctx, case):
     ref = spec.ref_run(n, prior, 2.0)
     others = [j for j in range(n) if j != m]
     corr = float(np.max(np.abs(ref.V[np.ix_([m, m + n], [j for o in others for j in (o, o + n)])]))) if others else 0.0
-    labels = ["backend:gaussian", "type:" + kind, "select"] + (["angle_nonzero"] if phi != 0 else [])
+    zero = bool(case.get("select_zero"))
+    labels = ["backend:gaussian", "type:" + kind, "select"] + (["angle_nonzero"] if phi != 0 else []) + (["select_zero"] if zero else [])
     if kind == "homodyne":
-        value2 = ref.homodyne_dist(phi, m)[0] + case["delta"][0]
+        value2 = 0.0 if zero else ref.homodyne_dist(phi, m)[0] + case["delta"][0]
         sel = value2 * np.sqrt(hbar / 2)
         op = ["MeasureHomodyne", [phi], [m], {"select": float(sel)}]
         ref.condition_homodyne(phi, value2, m, noise=EPS2)
     else:
         mu_o, _ = ref.heterodyne_dist(m)
-        out = mu_o + np.array(case["delta"])
+        out = np.zeros(2) if zero else mu_o + np.array(case["delta"])
         sel = complex(out[0], out[1]) / 2
         op = ["MeasureHeterodyne", [], [m], {"select": {"re": sel.real, "im": sel.imag}}]
         ref.condition_heterodyne(sel, m)
@@ -180,8 +197,13 @@ def fp_case(draw):
     k = draw(st.integers(1, n))
     modes = list(draw(st.permutations(list(range(n))))[:k])
     pmax = D - 1 if n < 3 else 3
-    return {"n": n, "cutoff": D, "rep": rep, "prior": draw(ket_terms(n, pmax)), "prior2": draw(ket_terms(n, pmax)) if rep == "mixed" else None,
+    case = {"n": n, "cutoff": D, "rep": rep, "prior": draw(ket_terms(n, pmax)), "prior2": draw(ket_terms(n, pmax)) if rep == "mixed" else None,
             "w": draw(gen.fl(0.2, 0.8)), "modes": modes, "pick": draw(st.integers(0, 10 ** 6)), "use_select": draw(st.integers(0, 3)) == 0}
+    # register with a gap: one more mode at position `pos` (prepared in |fock>, not entangled), deleted before the measurement, so that the
+    # register indices of the measured modes are no longer the backend's positions
+    if draw(st.integers(0, 2)) == 0:
+        case["spectator"] = {"pos": draw(st.integers(0, n)), "fock": draw(st.integers(0, 2))}
+    return case
 
 
 def check_fp(ctx, case):
@@ -206,13 +228,23 @@ def check_fp(ctx, case):
         return None
 
     sel = [outcome[asc.index(m)] for m in modes] if case["use_select"] else None
-    prog = sf.Program(n)
+    spect = case.get("spectator")
+    real = list(range(n)) if spect is None else [j + (j >= spect["pos"]) for j in range(n)]  # register index of the oracle's mode j
+    if spect is not None:
+        labels.append("measured_after_del")
+        if spect["pos"] <= max(modes):
+            labels.append("del_shifts_measured_mode")
+    prog = sf.Program(n if spect is None else n + 1)
     with prog.context as q:
+        if spect is not None:
+            ops.Fock(spect["fock"]) | q[spect["pos"]]
         if rep == "pure":
-            ops.Ket(psi) | tuple(q)
+            ops.Ket(psi) | tuple(q[real[j]] for j in range(n))
         else:
-            ops.DensityMatrix(rho0) | tuple(q)
-        ops.MeasureFock(select=sel) | tuple(q[m] for m in modes)
+            ops.DensityMatrix(rho0) | tuple(q[real[j]] for j in range(n))
+        if spect is not None:
+            ops.Del | q[spect["pos"]]
+        ops.MeasureFock(select=sel) | tuple(q[real[m]] for m in modes)
     try:
         with RngSpy(seed=1, policy=policy) as spy:
             res = sf.Engine("fock", backend_options={"cutoff_dim": D, "pure": rep == "pure"}).run(prog)
@@ -232,9 +264,11 @@ def check_fp(ctx, case):
     if got.shape != (1, len(modes)) or [int(x) for x in got[0]] != list(outcome):
         return ctx.fail("fock.pnr.sample_layout", "Result.samples = %s for measured modes %s; outcomes by ascending mode are %s" % (got.tolist(), modes, list(outcome)))
     for m_ in asc:
-        v = res.samples_dict.get(m_)
+        v = res.samples_dict.get(real[m_])
         if v is None or int(np.ravel(v[-1])[0]) != outcome[asc.index(m_)]:
-            return ctx.fail("fock.pnr.samples_dict", "samples_dict[%d] = %r, outcome of that mode is %d" % (m_, v, outcome[asc.index(m_)]))
+            return ctx.fail("fock.pnr.samples_dict", "samples_dict[%d] = %r, outcome of that mode is %d" % (real[m_], v, outcome[asc.index(m_)]))
+    if sorted(res.samples_dict) != [real[m_] for m_ in asc]:
+        return ctx.fail("fock.pnr.samples_dict", "samples_dict has keys %s, measured register indices are %s" % (sorted(res.samples_dict), [real[m_] for m_ in asc]))
     # post-measurement state: <k|rho|k> / p (x) vacuum on the measured modes
     idx = []
     for j in range(n):
@@ -269,8 +303,13 @@ def fh_case(draw):
             o[1][0] = float(np.clip(o[1][0], -0.25, 0.25))
         if o[0] == "Dgate":
             o[1][0] = min(o[1][0], 0.4)
-    return {"n": n, "prior": prior, "mode": draw(st.integers(0, n - 1)), "phi": draw(gen.angle()), "bin": draw(st.integers(46000, 54000)),
-            "select": draw(st.one_of(st.none(), gen.fl(-0.8, 0.8)))}
+    case = {"n": n, "prior": prior, "mode": draw(st.integers(0, n - 1)), "phi": draw(gen.angle()), "bin": draw(st.integers(46000, 54000)),
+            "select": draw(st.one_of(st.none(), gen.fl(-0.8, 0.8), st.none(), st.just(0.0)))}
+    # mixed-state representation of the simulator; a deleted spectator mode (register index of the measured mode != backend position)
+    case["pure"] = draw(st.sampled_from([True, False, True]))
+    if (case["pure"] or n == 1) and draw(st.integers(0, 2)) == 0:
+        case["spectator"] = {"pos": draw(st.integers(0, n)), "prep": draw(st.sampled_from([["Fock", [1]], ["Coherent", [0.3, 0.5]], ["Vacuum", []]]))}
+    return case
 
 
 def check_fh(ctx, case):
@@ -284,6 +323,21 @@ def check_fh(ctx, case):
         return None
     labels = ["backend:fock", "type:homodyne"] + (["angle_nonzero"] if phi != 0 else []) + (["select"] if case["select"] is not None else [])
     flags = {"select": case["select"]} if case["select"] is not None else {}
+    pure, spect = bool(case.get("pure", True)), case.get("spectator")
+    if case["select"] == 0:
+        labels.append("select_zero")
+    if not pure:
+        labels.append("homodyne_mixed_rep")
+    if spect is None:
+        N, program = n, prior + [["MeasureHomodyne", [phi], [m], flags]]
+    else:
+        labels.append("measured_after_del")
+        if spect["pos"] <= m:
+            labels.append("del_shifts_measured_mode")
+        emb = [j + (j >= spect["pos"]) for j in range(n)]
+        N = n + 1
+        program = ([[spect["prep"][0], spect["prep"][1], [spect["pos"]], {}]] + _embed_ops(prior, emb) + [["Del", [], [spect["pos"]], {}]]
+                   + [["MeasureHomodyne", [phi], [emb[m]], flags]])
     grid = np.linspace(-10, 10, 100000)
 
     def policy(call):
@@ -295,7 +349,7 @@ def check_fh(ctx, case):
 
     try:
         with RngSpy(seed=2, policy=policy) as spy:
-            res = sfrun.run("fock", n, prior + [["MeasureHomodyne", [phi], [m], flags]], 2.0, D, True)
+            res = sfrun.run("fock", N, program, 2.0, D, pure)
     except Exception as exc:  # pylint: disable=broad-except
         ctx.note(case, True, labels)
         return ctx.crash(exc, "fock.MeasureHomodyne")
@@ -448,16 +502,39 @@ def gp_case(draw):
     prior = draw(entangling_prior(n)) if n > 1 else draw(gen.op_list(1, ["Sgate", "Dgate", "Thermal"], "ps", 1, 3))
     k = draw(st.integers(1, n))
     modes = list(draw(st.permutations(list(range(n))))[:k])
-    return {"n": n, "prior": prior, "modes": modes, "kind": draw(st.sampled_from(["fock", "threshold"])), "shots": draw(st.sampled_from([1, 1, 3])),
+    kind = draw(st.sampled_from(["fock", "threshold"]))
+    case = {"n": n, "prior": prior, "modes": modes, "kind": kind, "shots": draw(st.sampled_from([1, 1, 3])),
             "hbar": draw(st.sampled_from([2.0, 1.0, 3.3]))}
+    # where the number of shots comes from: engine keyword, the program's default run options, both (the keyword wins), compile(shots=..)
+    case["shots_via"] = draw(st.sampled_from(["kwarg", "run_options", "both", "compile", "kwarg"]))
+    # register with unused modes, measured indices >= 10 next to one-digit ones
+    if n >= 2 and draw(st.integers(0, 2)) == 0:
+        second = modes[1] if k >= 2 else [m for m in range(n) if m != modes[0]][0]
+        case["N"], case["embed"] = draw(wide_embedding(n, modes[0], second))
+    # post-selection is not available for these measurements on the gaussian backend: the run must be refused, never answered with
+    # an outcome other than the selected one
+    # (finding F61, fixed: MeasureThreshold(select=..) with shots == 1 was neither refused nor honoured)
+    if draw(st.integers(0, 5)) == 0:
+        case["select"] = True
+    return case
 
 
 def check_gp(ctx, case):
     import strawberryfields.backends.gaussianbackend.backend as gb
 
     n, prior, modes, kind, shots, hbar = case["n"], case["prior"], case["modes"], case["kind"], case["shots"], case["hbar"]
+    N, embed, via, select = case.get("N", n), case.get("embed") or list(range(n)), case.get("shots_via", "kwarg"), bool(case.get("select"))
+    real = [embed[m] for m in modes]
     ref = spec.ref_run(n, prior, 2.0)
-    labels = ["backend:gaussian", "type:" + kind] + (["unsorted_measured_modes"] if modes != sorted(modes) else []) + (["multi_shot"] if shots > 1 else [])
+    labels = ["backend:gaussian", "type:" + kind] + (["unsorted_measured_modes"] if real != sorted(real) else []) + (["multi_shot"] if shots > 1 else [])
+    if [str(x) for x in sorted(real)] != sorted(str(x) for x in real):
+        labels.append("two_digit_mode_index")
+    if N > n:
+        labels.append("register_with_unused_modes")
+    if via != "kwarg":
+        labels.append("shots_from_" + via)
+    if select:
+        labels.append("select_on_unsupported_measurement")
     rec = {}
     tag = lambda s, j: 10 * s + j  # noqa: E731
 
@@ -467,15 +544,25 @@ def check_gp(ctx, case):
 
     def fake_tor(mu=None, cov=None, samples=1, **kw):
         rec["cov"], rec["mean"] = np.array(cov), np.array(mu)
-        return np.array([[(s + j) % 2 for j in range(len(cov) // 2)] for s in range(samples)])
+        return np.array([[tag(s, j) for j in range(len(cov) // 2)] for s in range(samples)])
 
     o1, o2 = gb.hafnian_sample_state, gb.torontonian_sample_state
     gb.hafnian_sample_state, gb.torontonian_sample_state = fake_haf, fake_tor
+    selvals = [7 + j for j in range(len(modes))]  # values the fake samplers never return
     try:
-        op = ["MeasureFock" if kind == "fock" else "MeasureThreshold", [], modes, {}]
-        res = sfrun.run("gaussian", n, prior + [op], hbar, run_kwargs={"shots": shots})
+        op = ["MeasureFock" if kind == "fock" else "MeasureThreshold", [], real, {"select": None} if not select else {"kw": {"select": selvals}}]
+        with sfrun.HbarCtx(hbar):
+            prog = spec.build_program(N, _embed_ops(prior, embed) + [op])
+            run_kwargs = {"shots": shots} if via in ("kwarg", "both") else {}
+            if via == "run_options":
+                prog.run_options = {"shots": shots}
+            elif via == "both":
+                prog.run_options = {"shots": shots + 2}
+            elif via == "compile":
+                prog = prog.compile(compiler="gaussian", shots=shots)
+        res = sfrun.run("gaussian", N, None, hbar, prog=prog, run_kwargs=run_kwargs)
     except sfrun.Rejected:
-        ctx.note(case, False, ["rejected:gaussian"])
+        ctx.note(case, False, labels + ["rejected:gaussian"])
         return None
     except Exception as exc:  # pylint: disable=broad-except
         ctx.note(case, True, labels)
@@ -483,22 +570,28 @@ def check_gp(ctx, case):
     finally:
         gb.hafnian_sample_state, gb.torontonian_sample_state = o1, o2
     ctx.note(case, nontrivial=n > len(modes), labels=labels)
+    got = np.asarray(res.samples)
+    if select:
+        if got.shape != (1, len(modes)) or [int(x) for x in got[0]] != [selvals[real.index(mm)] for mm in sorted(real)]:
+            return ctx.fail("gaussian.%s.select_ignored" % kind, "Measure%s(select=%s) on modes %s was neither refused nor honoured: Result.samples = %s" % (kind, selvals, real, got.tolist()))
+        return None
     mu_o, V_o = ref.reduced(modes)
     if float(np.max(np.abs(rec["cov"] - V_o))) > _tol(V_o, 1e-8):
-        return ctx.fail("gaussian.%s.born_distribution" % kind, "covariance handed to thewalrus differs from the reduced state of modes %s by %.3g" % (modes, float(np.max(np.abs(rec["cov"] - V_o)))))
+        return ctx.fail("gaussian.%s.born_distribution" % kind, "covariance handed to thewalrus differs from the reduced state of modes %s by %.3g" % (real, float(np.max(np.abs(rec["cov"] - V_o)))))
     if rec["mean"] is None:
         if float(np.max(np.abs(ref.mu))) > 1e-7:
             return ctx.fail("gaussian.%s.mean_dropped" % kind, "displaced state sampled without its mean")
     elif float(np.max(np.abs(rec["mean"] - mu_o))) > _tol(V_o, 1e-8):
-        return ctx.fail("gaussian.%s.born_distribution" % kind, "mean handed to thewalrus differs from the reduced state of modes %s by %.3g" % (modes, float(np.max(np.abs(rec["mean"] - mu_o)))))
-    got = np.asarray(res.samples)
+        return ctx.fail("gaussian.%s.born_distribution" % kind, "mean handed to thewalrus differs from the reduced state of modes %s by %.3g" % (real, float(np.max(np.abs(rec["mean"] - mu_o)))))
     if got.shape != (shots, len(modes)):
-        return ctx.fail("gaussian.%s.sample_shape" % kind, "Result.samples has shape %s for %d shots of %d modes" % (got.shape, shots, len(modes)))
-    if kind == "fock":
-        asc = sorted(modes)
-        want = np.array([[tag(s, modes.index(mm)) for mm in asc] for s in range(shots)])
-        if not np.array_equal(got, want):
-            return ctx.fail("gaussian.fock.sample_layout", "Result.samples %s, expected columns in ascending mode order %s (measured %s)" % (got.tolist(), want.tolist(), modes))
+        return ctx.fail("gaussian.%s.sample_shape" % kind, "Result.samples has shape %s for %d shots (given by %s) of %d modes" % (got.shape, shots, via, len(modes)))
+    want = np.array([[tag(s, real.index(mm)) for mm in sorted(real)] for s in range(shots)])
+    if not np.array_equal(got, want):
+        return ctx.fail("gaussian.%s.sample_layout" % kind, "Result.samples %s, expected columns in ascending mode order %s (measured %s)" % (got.tolist(), want.tolist(), real))
+    for j, mm in enumerate(real):
+        dv = res.samples_dict.get(mm)
+        if dv is None or len(dv) != 1 or [int(x) for x in np.ravel(dv[0])] != [tag(s, j) for s in range(shots)]:
+            return ctx.fail("gaussian.%s.samples_dict" % kind, "samples_dict[%d] = %r, the sampler returned %s for that mode" % (mm, dv, [tag(s, j) for s in range(shots)]))
     return None
 
 
@@ -506,82 +599,139 @@ def check_gp(ctx, case):
 # layout of results with several measurements
 # ---------------------------------------------------------------------------------------------
 @st.composite
+def wide_embedding(draw, n, first, second):
+    """register size N in 11..13 and n distinct positions for the circuit's modes 0..n-1; the circuit modes ``first`` and ``second``
+    (both measured) get one position >= 10 and one in 2..9, so that the measured indices sort differently as numbers and as text"""
+    N = draw(st.integers(11, 13))
+    hi, lo = draw(st.integers(10, N - 1)), draw(st.integers(2, 9))
+    rest = [p for p in draw(st.permutations(list(range(N)))) if p not in (hi, lo)]
+    emb = [None] * n
+    emb[first], emb[second] = (hi, lo) if draw(st.booleans()) else (lo, hi)
+    it = iter(rest)
+    return N, [e if e is not None else next(it) for e in emb]
+
+
+def _embed_ops(oplist, embed):
+    return [[o[0], o[1], [embed[m] for m in o[2]]] + list(o[3:]) for o in oplist]
+
+
+@st.composite
 def lo_case(draw):
     n = draw(st.integers(2, 4))
     prior = draw(entangling_prior(n))
     k = draw(st.integers(2, n))
     modes = list(draw(st.permutations(list(range(n))))[:k])
-    kinds = [draw(st.sampled_from(["homodyne", "heterodyne", "select"])) for _ in modes]
-    return {"n": n, "prior": prior, "modes": modes, "kinds": kinds, "backend": draw(st.sampled_from(["gaussian", "bosonic"])),
-            "hbar": draw(st.sampled_from([2.0, 1.0]))}
+    backend = draw(st.sampled_from(["gaussian", "bosonic"]))
+    # several shots (bosonic sampler only; the engine refuses post-selection with shots > 1, the gaussian backend shots > 1)
+    shots = draw(st.sampled_from([1, 3, 2])) if backend == "bosonic" else 1
+    kind = st.sampled_from(["homodyne", "heterodyne", "select"] if shots == 1 else ["homodyne", "heterodyne"])
+    kinds = [draw(kind) for _ in modes]
+    case = {"n": n, "prior": prior, "modes": modes, "kinds": kinds, "backend": backend, "hbar": draw(st.sampled_from([2.0, 1.0]))}
+    if shots > 1:
+        case["shots"] = shots
+    # wide register with unused modes: measured indices >= 10 next to one-digit ones
+    if draw(st.integers(0, 2)) == 0:
+        case["N"], case["embed"] = draw(wide_embedding(n, modes[0], modes[1]))
+    # the same mode measured again later in the program (it was reset to vacuum by the first measurement)
+    if draw(st.integers(0, 2)) == 0:
+        case["again"] = [[draw(st.integers(0, k - 1)), draw(kind)] for _ in range(draw(st.integers(1, 2)))]
+    # the module-level instances MeasureX / MeasureHD shared by all commands instead of fresh operation objects
+    case["shortcut"] = draw(st.integers(0, 3)) == 0
+    return case
 
 
 def check_lo(ctx, case):
     import strawberryfields as sf
+    from strawberryfields import ops
 
     n, prior, modes, kinds, be, hbar = case["n"], case["prior"], case["modes"], case["kinds"], case["backend"], case["hbar"]
-    labels = ["backend:" + be, "layout"] + (["unsorted_measured_modes"] if modes != sorted(modes) else [])
-    opsl = []
-    expect = {}
-    order = {"i": 0}
+    N, embed = case.get("N", n), case.get("embed") or list(range(n))
+    shots, shortcut = case.get("shots", 1), bool(case.get("shortcut"))
+    events = [[embed[mm], kd] for mm, kd in zip(modes, kinds)] + [[embed[modes[pos]], kd] for pos, kd in case.get("again", [])]
+    real = [mm for mm, _ in events]
+    asc = sorted(set(real))
+    labels = ["backend:" + be, "layout"] + (["unsorted_measured_modes"] if real[:len(modes)] != sorted(real[:len(modes)]) else [])
+    if [str(x) for x in asc] != sorted(str(x) for x in asc):
+        labels.append("two_digit_mode_index")
+    if N > n:
+        labels.append("register_with_unused_modes")
+    if len(real) > len(asc):
+        labels.append("remeasured_mode")
+    if shots > 1:
+        labels.append("layout_multi_shot")
+    if shortcut:
+        labels.append("shared_measurement_instance")
     s = np.sqrt(hbar / 2)
-    for mm, kd in zip(modes, kinds):
+    seen = {}
+    seq = []  # sampled measurements in program order: (mode, kind, occurrence)
+    expect = {mm: [] for mm in asc}  # per mode: one array (over shots) per measurement of that mode
+    for ev in events:
+        mm, kd = ev
+        occ = seen.get(mm, 0)
+        seen[mm] = occ + 1
+        ev.append(occ)
         if kd == "select":
-            opsl.append(["MeasureHomodyne", [0.3], [mm], {"select": (100 + mm) * 0.01}])
-            expect[mm] = (100 + mm) * 0.01
-        elif kd == "homodyne":
-            opsl.append(["MeasureHomodyne", [0.0], [mm], {}])
-            expect[mm] = None
+            expect[mm].append(np.array([(100 + mm) * 0.01 + 0.15 * occ]))
         else:
-            opsl.append(["MeasureHeterodyne", [], [mm], {}])
-            expect[mm] = None
-    seq = [mm for mm, kd in zip(modes, kinds) if kd != "select"]
+            seq.append((mm, kd, occ))
+            tag = np.array([(200 + mm) * 0.01 + 0.15 * occ + 0.003 * sh for sh in range(shots)])  # x = 2 * tag in hbar=2 units
+            expect[mm].append(2 * tag * s if kd == "homodyne" else tag + 1j * (0.25 * tag + 0.1))
+    order = {"i": 0}
 
     def policy(call):
         if call.name == "multivariate_normal":
             mean = np.array(call.arg(0, "mean"), float)
-            mm = seq[min(order["i"], len(seq) - 1)]
+            i = min(order["i"], len(seq) * shots - 1)
+            mm, kd, occ = seq[i // shots]
             order["i"] += 1
+            tag = (200 + mm) * 0.01 + 0.15 * occ + 0.003 * (i % shots)
             out = mean.copy()
-            out[0] = (200 + mm) * 0.01 * 2  # hbar=2 units: tagged by mode
+            out[0] = 2 * tag
+            if kd == "heterodyne":
+                out[1] = 2 * (0.25 * tag + 0.1)
             return out.reshape(1, -1) if be == "gaussian" else out
         if call.name == "random":
             return np.array([0.0])
         return None
 
     with sfrun.HbarCtx(hbar):
-        prog = spec.build_program(n, prior + opsl)
+        prog = sf.Program(N)
+        with prog.context as q:
+            for o in _embed_ops(prior, embed):
+                spec.make_op(ops, o[0], o[1], o[3] if len(o) > 3 else {}) | tuple(q[m] for m in o[2])
+            for mm, kd, occ in events:
+                if kd == "select":
+                    ops.MeasureHomodyne(0.3, select=(100 + mm) * 0.01 + 0.15 * occ) | q[mm]
+                elif kd == "homodyne":
+                    (ops.MeasureX if shortcut else ops.MeasureHomodyne(0.0)) | q[mm]
+                else:
+                    (ops.MeasureHD if shortcut else ops.MeasureHeterodyne()) | q[mm]
         try:
             with RngSpy(seed=4, policy=policy):
-                res = sf.Engine(be).run(prog)
+                res = sf.Engine(be).run(prog, **({"shots": shots} if shots > 1 else {}))
         except Exception as exc:  # pylint: disable=broad-except
             ctx.note(case, True, labels)
             return ctx.crash(exc, be + ".layout")
-    ctx.note(case, nontrivial=modes != sorted(modes), labels=labels)
-    for mm, kd in zip(modes, kinds):
-        if kd == "homodyne":
-            expect[mm] = (200 + mm) * 0.01 * 2 * s / 1.0 * 0.5 * 2 / 2 * 1.0  # value in hbar units = x_hbar2 * sqrt(hbar/2)
-            expect[mm] = (200 + mm) * 0.01 * 2 * s
-    asc = sorted(modes)
+    ctx.note(case, nontrivial=len(labels) > 2, labels=labels)
     got = np.asarray(res.samples)
-    if got.shape != (1, len(modes)):
-        return ctx.fail("layout.sample_shape.%s" % be, "Result.samples has shape %s for %d measured modes" % (got.shape, len(modes)))
+    if got.shape != (shots, len(asc)):
+        return ctx.fail("layout.sample_shape.%s" % be, "Result.samples has shape %s for %d shots of %d measured modes" % (got.shape, shots, len(asc)))
+
+    def differs(a, b):
+        a, b = np.ravel(np.asarray(a)), np.ravel(np.asarray(b))
+        return a.shape != b.shape or bool(np.any(np.abs(a - b) > 1e-9 * (1 + np.abs(b))))
+
     for col, mm in enumerate(asc):
-        kd = kinds[modes.index(mm)]
-        val = got[0, col]
+        val = got[:, col]
+        if differs(val, expect[mm][-1]):
+            return ctx.fail("layout.samples_column.%s" % be, "column %d of Result.samples should hold the (last) outcome of mode %d, %s: got %s, samples %s, measurements in program order %s"
+                            % (col, mm, np.round(expect[mm][-1], 6).tolist(), val.tolist(), got.tolist(), [e[:2] for e in events]))
         dv = res.samples_dict.get(mm)
+        if dv is None or len(dv) != len(expect[mm]) or any(differs(a, b) for a, b in zip(dv, expect[mm])):
+            return ctx.fail("layout.samples_dict.%s" % be, "samples_dict[%d] = %r but the outcomes of that mode are, in program order, %s" % (mm, dv, [np.round(e, 6).tolist() for e in expect[mm]]))
         rv = prog.register[mm].val
-        if kd == "heterodyne":
-            want_re = (200 + mm) * 0.01  # alpha = (x + ip)/2 with x forced to 2*(200+mm)*0.01
-            ok = abs(np.real(val) - want_re) < 1e-9
-        else:
-            ok = abs(val - expect[mm]) < 1e-9 * (1 + abs(expect[mm]))
-        if not ok:
-            return ctx.fail("layout.samples_column.%s" % be, "column %d of Result.samples should hold the outcome of mode %d (%s): got %r, samples %s, measured order %s" % (col, mm, kd, val, got.tolist(), modes))
-        if dv is None or abs(np.ravel(dv[-1])[0] - val) > 1e-12:
-            return ctx.fail("layout.samples_dict.%s" % be, "samples_dict[%d] = %r but the outcome of that mode is %r" % (mm, dv, val))
-        if rv is None or abs(np.ravel(rv)[0] - val) > 1e-12:
-            return ctx.fail("layout.regref_val.%s" % be, "RegRef %d holds %r but the outcome of that mode is %r" % (mm, rv, val))
+        if rv is None or differs(rv, expect[mm][-1]):
+            return ctx.fail("layout.regref_val.%s" % be, "RegRef %d holds %r but the last outcome of that mode is %s" % (mm, rv, np.round(expect[mm][-1], 6).tolist()))
     return None
 
 
@@ -590,7 +740,7 @@ def check_lo(ctx, case):
 # ---------------------------------------------------------------------------------------------
 @st.composite
 def bc_case(draw):
-    n = draw(st.integers(2, 3))
+    n = draw(st.sampled_from([2, 3, 1, 2]))
     preps = []
     nong = 0
     for j in range(n):
@@ -606,11 +756,16 @@ def bc_case(draw):
         else:
             preps.append([kind, draw(gen.op_params(kind, "ps")), [j], {}])
     gates = draw(gen.op_list(n, ["BSgate", "BSgate", "S2gate", "Dgate", "Rgate", "Sgate"], "ps", 1, 4))
-    kind = draw(st.sampled_from(["threshold", "threshold", "homodyne", "heterodyne"]))
-    k = draw(st.integers(1, n - 1)) if kind == "threshold" else 1
+    kind = draw(st.sampled_from(["homodyne", "threshold", "heterodyne", "threshold"]))
+    k = draw(st.integers(1, n)) if kind == "threshold" else 1  # k == n: every mode of the register is measured
     modes = list(draw(st.permutations(list(range(n))))[:k])
-    return {"n": n, "prior": preps + gates, "kind": kind, "modes": modes, "outcomes": [draw(st.integers(0, 1)) for _ in modes], "phi": draw(gen.angle()),
+    case = {"n": n, "prior": preps + gates, "kind": kind, "modes": modes, "outcomes": [draw(st.integers(0, 1)) for _ in modes], "phi": draw(gen.angle()),
             "delta": [draw(gen.fl(-1.0, 1.0)), draw(gen.fl(-1.0, 1.0))], "points": [[draw(gen.fl(-2.0, 2.0)) for _ in range(2 * n)] for _ in range(3)]}
+    if kind != "threshold":
+        # how the outcome is fixed: post-selected (select = Born mean + delta, or exactly 0), or drawn by the rejection sampler (proposal forced
+        # to its peak mean + delta and accepted)
+        case["how"] = draw(st.sampled_from(["select", "sampled", "select_zero", "sampled"]))
+    return case
 
 
 def _mix_condition(w, mus, covs, m, M, v, h=2.0):
@@ -675,7 +830,7 @@ def check_bc(ctx, case):
 
     n, prior, kind, modes, phi = case["n"], case["prior"], case["kind"], case["modes"], case["phi"]
     h = 2.0
-    labels = ["backend:bosonic", "type:" + kind, "bosonic_conditional"]
+    labels = ["backend:bosonic", "type:" + kind, "bosonic_conditional"] + (["every_mode_measured"] if len(modes) == n else [])
     try:
         pre = sfrun.run("bosonic", n, prior, h).state
     except sfrun.Rejected:
@@ -703,18 +858,29 @@ def check_bc(ctx, case):
 
         op = ["MeasureThreshold", [], modes, {}]
     else:
-        policy = None
+        how = case.get("how", "select")
+        labels.append("dyne_" + how)
         m = modes[0]
+        mean0, _ = _mix_moments(w0, mus0, covs0)
+        forced = {}
+
+        def policy(call):
+            # only consulted when the outcome is sampled: first proposal = its peak mean + delta, accepted at once
+            if call.name == "multivariate_normal" and "v" not in forced:
+                forced["v"] = np.array(call.arg(0, "mean"), float) + np.array(case["delta"]) * (np.array([1.0, 0.0]) if kind == "homodyne" else 1.0)
+                return forced["v"]
+            if call.name == "random":
+                return np.array([0.0])
+            return None
+
         if kind == "homodyne":
             # select = Born mean of x_phi + delta
-            mean0, _ = _mix_moments(w0, mus0, covs0)
             xm = np.cos(phi) * mean0[2 * m] + np.sin(phi) * mean0[2 * m + 1]
-            sel = float(xm + case["delta"][0])
-            op = ["MeasureHomodyne", [phi], [m], {"select": sel}]
+            sel = 0.0 if how == "select_zero" else float(xm + case["delta"][0])
+            op = ["MeasureHomodyne", [phi], [m], {} if how == "sampled" else {"kw": {"select": sel}}]
         else:
-            mean0, _ = _mix_moments(w0, mus0, covs0)
-            sel = complex(mean0[2 * m] + case["delta"][0], mean0[2 * m + 1] + case["delta"][1]) / 2
-            op = ["MeasureHeterodyne", [], [m], {"select": {"re": sel.real, "im": sel.imag}}]
+            sel = 0j if how == "select_zero" else complex(mean0[2 * m] + case["delta"][0], mean0[2 * m + 1] + case["delta"][1]) / 2
+            op = ["MeasureHeterodyne", [], [m], {} if how == "sampled" else {"kw": {"select": sel}}]
     try:
         with RngSpy(seed=5, policy=policy) as spy:
             res = sfrun.run("bosonic", n, prior + [op], h)
@@ -763,8 +929,20 @@ def check_bc(ctx, case):
             if v is None or int(np.ravel(v[-1])[0]) != per_mode[m_]:
                 return ctx.fail("bosonic.threshold.samples_dict", "samples_dict[%d] = %r, the outcome drawn for that mode is %d" % (m_, v, per_mode[m_]))
     else:
-        ctx.note(case, nontrivial=True, labels=labels + ["select"] + (["angle_nonzero"] if kind == "homodyne" and phi != 0 else []))
+        ctx.note(case, nontrivial=True, labels=labels + (["select"] if how != "sampled" else []) + (["angle_nonzero"] if kind == "homodyne" and phi != 0 else []))
         m = modes[0]
+        got = np.asarray(res.samples)
+        if how == "sampled":
+            if "v" not in forced:
+                return ctx.fail("bosonic.%s.sampler_calls" % kind, "no proposal was drawn")
+            # the general-dyne POVM element of the drawn phase-space point (x, p); hbar = 2: x_phi = x, alpha = (x + ip) / 2
+            point = forced["v"]
+            value = float(point[0]) if kind == "homodyne" else complex(point[0], point[1]) / 2
+        else:
+            point = [sel, 0.0] if kind == "homodyne" else [np.sqrt(2 * h) * sel.real, np.sqrt(2 * h) * sel.imag]
+            value = sel
+        if got.shape != (1, 1) or abs(got[0, 0] - value) > 1e-9 * (1 + abs(value)):
+            return ctx.fail("bosonic.%s.returned_value" % kind, "Result.samples = %r, the %s outcome is %r" % (got.tolist(), "drawn" if how == "sampled" else "selected", value))
         if kind == "homodyne":
             # rotate the frame by -phi (x_phi -> x), project on x = sel with the documented finite squeezing, rotate back is not needed:
             # the measured mode ends in vacuum and the other modes are not touched by the local rotation
@@ -774,9 +952,9 @@ def check_bc(ctx, case):
             mus = mus0 @ R.T
             covs = np.array([R @ cv @ R.T for cv in covs0])
             M = h / 2 * np.diag([EPS2, 1 / EPS2])
-            w, mus, covs = _mix_condition(w0, mus, covs, m, M, [sel, 0.0], h)
+            w, mus, covs = _mix_condition(w0, mus, covs, m, M, point, h)
         else:
-            w, mus, covs = _mix_condition(w0, mus0, covs0, m, vac, [np.sqrt(2 * h) * sel.real, np.sqrt(2 * h) * sel.imag], h)
+            w, mus, covs = _mix_condition(w0, mus0, covs0, m, vac, point, h)
         tot = np.sum(w)
         if abs(tot) < 1e-12 * scale:
             return None
